@@ -15,6 +15,7 @@ PROPS = {
     "C07": ("c07", "other"),
     "C14": ("c14", "other"),
     "C17": ("c17", "other"),
+    "C18": ("c18", "other"),
     "C19": ("c19", "other"),
     "C08": ("c08", "other"),
     "C09": ("c09", "other"),
